@@ -142,19 +142,35 @@ Theorem tan_replay_rejected_tail : forall ck lognum, (forall b, ck b < 2 ^ 32) -
 Proof. exact tan_replay_rejected_tail_proved. Qed.
 Print Assumptions tan_replay_rejected_tail.
 
-(* Covered corruption: the log is CUT (truncated) at any byte inside its last record -
-   inside the 7 byte chunk header or inside the payload.  Replay returns exactly the complete
-   records and stops with a verdict that open() treats as a torn tail (recoverable: EOF,
-   zeroed / invalid chunk, unexpected EOF), never with the checksum error that makes open()
-   fail.  Not covered by a theorem: garbage (other than absence) after the last complete
-   record; there the reader can stop with VCrc (see the report: ErrCRCMismatch is not in
-   IsInvalidRecord) - compared differentially (tangarb cases). *)
-Theorem tan_replay_ignores_torn_tail_partial : forall ck lognum, (forall b, ck b < 2 ^ 32) ->
-  forall rs r cut, fits (rs ++ [r]) -> cut < hdr + nlen r ->
-  exists v, replay ck lognum (frame ck rs ++ takeN cut (chunk ck ty_full r)) = (rs, v) /\
+(* EVERY CUT POINT.  The written bytes are cut (truncated) at ANY byte: inside the zero
+   padding at a block end, inside a chunk header, inside the payload of a full / first /
+   middle / last chunk, or exactly between two chunks of one record.  Replay returns a prefix
+   of the written records - exactly the records whose bytes are completely inside the cut
+   (k is maximal), unaltered, never a fabricated one - and stops with a verdict that open()
+   treats as a torn tail (EOF, invalid chunk, unexpected EOF), never with the checksum error
+   that makes open() fail.
+   Assumption on the checksum oracle: ck b < 2^32 only (no collision-freeness is needed for
+   pure truncation).  Garbage after the cut is covered by tan_replay_rejected_tail when it
+   starts where a record would start and the reader rejects its first record; garbage that
+   continues a half-written record (a cut inside a record followed by foreign bytes) is NOT
+   covered by a theorem: there the outcome depends on the checksum of the foreign bytes
+   (compared differentially, tangarb cases). *)
+Theorem tan_replay_ignores_torn_tail : forall ck lognum, (forall b, ck b < 2 ^ 32) ->
+  forall rs cut,
+  exists k v, replay ck lognum (takeN cut (frame ck rs)) = (firstn k rs, v) /\
+              recoverable v = true /\
+              nlen (frame ck (firstn k rs)) <= cut /\
+              ((k < length rs)%nat -> cut < nlen (frame ck (firstn (S k) rs))).
+Proof. exact tan_replay_any_cut_proved. Qed.
+Print Assumptions tan_replay_ignores_torn_tail.
+
+(* the same, in the form "complete records followed by a torn one" *)
+Theorem tan_replay_torn_record : forall ck lognum, (forall b, ck b < 2 ^ 32) ->
+  forall rs r c, c < nlen (write_record ck (nlen (frame ck rs)) r) ->
+  exists v, replay ck lognum (frame ck rs ++ takeN c (write_record ck (nlen (frame ck rs)) r)) = (rs, v) /\
             recoverable v = true.
-Proof. exact tan_replay_ignores_torn_tail_fits. Qed.
-Print Assumptions tan_replay_ignores_torn_tail_partial.
+Proof. exact tan_replay_torn_record_proved. Qed.
+Print Assumptions tan_replay_torn_record.
 
 (* TAN SAVE PATH, fsync and error rules (the shape of the code is regenerated into
    Gen/GenC10.v; these obligations stop checking when it changes, the black-box crash
@@ -182,10 +198,12 @@ Proof. vm_compute. split; reflexivity. Qed.
 
 Example c10_example_tan :
   let ck := fun b : bytes => 7 + nlen b in
-  fits [[1; 2; 3]; []; [9]] /\
   replay ck 0 (frame ck [[1; 2; 3]; []; [9]]) = ([[1; 2; 3]; []; [9]], VEof) /\
-  replay ck 0 (takeN 20 (frame ck [[1; 2; 3]; []; [9]])) = ([[1; 2; 3]; []], VInvalid).
-Proof. vm_compute. repeat split; try reflexivity; discriminate. Qed.
+  replay ck 0 (takeN 20 (frame ck [[1; 2; 3]; []; [9]])) = ([[1; 2; 3]; []], VInvalid) /\
+  (* a record of 40000 bytes: first + last chunk over two blocks *)
+  nlen (frame ck [repeat 5 (N.to_nat 40000)]) = 40014 /\
+  fst (replay ck 0 (takeN 33000 (frame ck [[1]; repeat 5 (N.to_nat 40000)]))) = [[1]].
+Proof. vm_compute. repeat split; reflexivity. Qed.
 
 (* non-vacuity: the repaired model fails the witnesses of F1 and F2; a crash after the
    commit of the second save of a run leaves acked + in flight *)
